@@ -29,8 +29,9 @@ impl C11 {
 
 /// source text of a value (only value kinds the expressions below can produce)
 fn literal(c: &Cell) -> Option<String> {
-    if c.tags().is_some() {
-        return None;
+    if let Some(tags) = c.tags() {
+        // a tagged value written out: the bare value, then its tag map attached
+        return Some(format!("{} {} with-tags", literal(c.value())?, literal(&Cell::Map(tags.clone()))?));
     }
     Some(match c {
         Cell::Nil => "nil".into(),
@@ -94,7 +95,23 @@ fn int_expr(rng: &mut Rng, depth: usize) -> String {
 
 fn gen_expr(rng: &mut Rng, k: u64, allow_nested: bool) -> Expr {
     let seq = k % 1000;
-    match rng.below(if allow_nested { 12 } else { 10 }) {
+    match rng.below(if allow_nested { 18 } else { 15 }) {
+        10 => {
+            // results that carry tags (formatting tag, user tags): re-emitted with their tags
+            let v = rng.pick_str(&["255", "-7", "\"s\"", "nil", "[ 1 2 ]", "|F0|", "true"]).to_string();
+            let t = rng.pick_str(&["^hex", "^bin", "^{ 1 \"k\" ^}", "^{ [ 2 ] \"t\" \"x\" \"u\" ^}", "^hex ^{ 3 \"k\" ^}", "7 \"k\" insert-tag"]).to_string();
+            Expr { src: format!("{} {}", v, t), class: "tagged-value", consts: vec![] }
+        }
+        11 => Expr { src: format!("{} ^hex const MT{} MT{}", rng.below(300), seq, seq), class: "tagged-const", consts: vec![format!("MT{}", seq)] },
+        12 => Expr { src: format!(": sq{} dup * ; {} const MK{} MK{} sq{} const MK{} MK{} 1 +", seq, rng.range(2, 9), seq, seq, seq, seq, seq), class: "const-redefined", consts: vec![format!("MK{}", seq)] },
+        13 => Expr { src: format!("{} const MA{} {} const MB{} : h{} 1 ; {} const MA{} MA{} MB{} +", rng.below(9), seq, rng.below(9), seq, seq, 10 + rng.below(9), seq, seq, seq), class: "const-redefined-2", consts: vec![format!("MA{}", seq), format!("MB{}", seq)] },
+        14 => Expr { src: format!(": lw{} local a local b a b - a * ; {} {} lw{}", seq, int_expr(rng, 2), int_expr(rng, 2), seq), class: "local-word-with-locals", consts: vec![] },
+        15 => {
+            let inner = gen_expr(rng, k + 1, false);
+            Expr { src: format!("#( {} #) depth collect", inner.src), class: "nested-meta", consts: inner.consts }
+        }
+        16 => Expr { src: format!(": g{} ; {} const MN{} #( {} const MN{} #) MN{}", seq, rng.below(9), seq, 10 + rng.below(9), seq, seq), class: "const-redefined-in-nested", consts: vec![format!("MN{}", seq)] },
+        17 => Expr { src: format!("#( {} #) #( {} #) +", int_expr(rng, 2), int_expr(rng, 2)), class: "nested-meta-2", consts: vec![] },
         0 | 1 => Expr { src: int_expr(rng, 0), class: "arith", consts: vec![] },
         2 => Expr { src: format!("{} {} {} rot swap", int_expr(rng, 2), int_expr(rng, 2), int_expr(rng, 2)), class: "multi-3", consts: vec![] },
         3 => Expr { src: format!("{} \"s{}\"", int_expr(rng, 2), rng.below(9)), class: "multi-2", consts: vec![] },
@@ -104,11 +121,7 @@ fn gen_expr(rng: &mut Rng, k: u64, allow_nested: bool) -> Expr {
         7 => Expr { src: format!(": ma{} 2 * ; : mb{} ma{} ma{} ; {} mb{}", seq, seq, seq, seq, rng.range(0, 9), seq), class: "local-words-2", consts: vec![] },
         8 => Expr { src: format!("{} const MC{} MC{} 1 +", int_expr(rng, 2), seq, seq), class: "const", consts: vec![format!("MC{}", seq)] },
         9 => Expr { src: format!("{{ {} \"k\" }} \"k\" get |F0x.| swap u8be!", int_expr(rng, 3).split(' ').next().unwrap_or("1").trim_start_matches('-')), class: "map+bitstr", consts: vec![] },
-        10 => {
-            let inner = gen_expr(rng, k + 1, false);
-            Expr { src: format!("#( {} #) depth collect", inner.src), class: "nested-meta", consts: inner.consts }
-        }
-        _ => Expr { src: format!("#( {} #) #( {} #) +", int_expr(rng, 2), int_expr(rng, 2)), class: "nested-meta-2", consts: vec![] },
+        _ => Expr { src: int_expr(rng, 1), class: "arith", consts: vec![] },
     }
 }
 
@@ -242,8 +255,15 @@ impl C11 {
                 // the variable listing of P additionally shows the constants the block defined: compare without them
                 let strip = |o: &str| -> String {
                     let mut s = o.to_string();
-                    for (n, v) in &const_vals {
-                        s = s.replace(&format!(" {}={};", n, show(v)), "");
+                    for (n, _) in &const_vals {
+                        // every definition of the name (a redefinition shadows the older entry, which stays listed)
+                        let pat = format!(" {}=", n);
+                        while let Some(at) = s.find(&pat) {
+                            match s[at..].find(';') {
+                                Some(e) => s.replace_range(at..at + e + 1, ""),
+                                None => break,
+                            }
+                        }
                     }
                     s
                 };
@@ -335,6 +355,68 @@ impl C11 {
         obs.shape(fnv1a(format!("seal|{}|{}|{}", kind, wrapper, style).as_bytes()));
     }
 
+    /// the block cannot see the surrounding data stack: the same block gives the same outcome whether three values or
+    /// none lie below it, and the values below are still there afterwards
+    fn twin_stack_case(&mut self, idx: u64, obs: &mut Obs) {
+        let mut rng = Rng::for_case("C11twin", self.seed, idx);
+        let mut body = String::new();
+        for _ in 0..1 + rng.below(6) {
+            body.push_str(rng.pick_str(&[
+                "1", "2", "3", "7", "\"s\"", "[ 4 5 ]", "nil", "drop", "dup", "swap", "over", "rot", "depth", "collect", "+", "*", "-", "max", "len", "reverse",
+                "concat", "[", "]", "not", "nip", "tuck", "2 collect", "1 3 collect", "depth collect", "0 collect", "5 const TK", "unbox", "= ", "assert-eq", "print",
+            ]));
+            body.push(' ');
+        }
+        let wrapper = rng.below(3);
+        let src = match wrapper {
+            0 => format!("#( {}#)", body),
+            1 => format!("[ #( {}#) ]", body),
+            _ => format!(": sealed #( {}#) ; sealed", body),
+        };
+        let style = rng.below(2);
+        let mut xa = self.boot.clone();
+        let mut xb = self.boot.clone();
+        let _ = xa.eval("44 var outer-v");
+        let _ = xb.eval("44 var outer-v");
+        let below = *rng.pick(&["11 22 33", "11", "[ 1 2 ] \"x\" 5 6", "0 0 0 0 0 0 0 0"]);
+        let _ = xa.eval(below);
+        let nbelow = xa.data_depth();
+        let ra = submit(&mut xa, &src, style);
+        let rb = submit(&mut xb, &src, style);
+        let (ra, rb) = match (ra, rb) {
+            (Ok(a), Ok(b)) => (a, b),
+            _ => {
+                obs.skipped += 1;
+                obs.count("skipped:panic(C08)");
+                return;
+            }
+        };
+        obs.count("twin_stack_probes");
+        let case = format!("{}  then  [{}] {}", below, if style == 0 { "eval" } else { "compile+run" }, src);
+        let ca = ra.as_ref().err().map(err_class);
+        let cb = rb.as_ref().err().map(err_class);
+        let sa: Vec<String> = (0..xa.data_depth()).rev().filter_map(|i| xa.get_data(i).map(show)).collect();
+        let sb: Vec<String> = (0..xb.data_depth()).rev().filter_map(|i| xb.get_data(i).map(show)).collect();
+        let out_a = xa.read_stdout().unwrap_or_default();
+        let out_b = xb.read_stdout().unwrap_or_default();
+        if ca != cb {
+            return self.fail(obs, idx, "block-sees-outer-stack:outcome".into(), case, format!("with values below: {:?} stack {:?}\nwith nothing below: {:?} stack {:?}", ca, sa, cb, sb));
+        }
+        let mut want: Vec<String> = {
+            let mut t = self.boot.clone();
+            let _ = t.eval(below);
+            (0..t.data_depth()).rev().filter_map(|i| t.get_data(i).map(show)).collect()
+        };
+        assert_eq!(want.len(), nbelow);
+        want.extend(sb.iter().cloned());
+        if sa != want || out_a != out_b {
+            return self.fail(obs, idx, format!("block-sees-outer-stack:{}", if ca.is_some() { "after-rejection" } else { "result" }), case, format!("with values below: stack {:?} printed {:?}\nwith nothing below: stack {:?} printed {:?}", sa, out_a, sb, out_b));
+        }
+        obs.count(if ca.is_some() { "twin_stack_probes:rejected_alike" } else { "twin_stack_probes:accepted_alike" });
+        obs.add("evaluations", 1);
+        obs.shape(fnv1a(format!("twin|{}|{}|{}|{}", body, wrapper, style, below).as_bytes()));
+    }
+
     /// compile() executes nothing outside meta blocks: data stack and existing variables unchanged; a closed top-level
     /// block adds exactly its results as code and exactly its constants to the dictionary
     fn compile_case(&mut self, idx: u64, obs: &mut Obs) {
@@ -392,8 +474,12 @@ impl C11 {
             if d1.code_len != d0.code_len + nres {
                 return self.fail(obs, idx, format!("code-left-behind:{}", e.class), src, format!("code length {} -> {}, the block has {} result(s)", d0.code_len, d1.code_len, nres));
             }
-            let added: Vec<String> = dict1[dict0.len().min(dict1.len())..].iter().map(|(n, k)| format!("{}:{}", n, k)).collect();
-            let want: Vec<String> = e.consts.iter().map(|c| format!("{}:const", c)).collect();
+            // (a constant defined twice is listed twice: the redefinition shadows the older entry)
+            let mut added: Vec<String> = dict1[dict0.len().min(dict1.len())..].iter().map(|(n, k)| format!("{}:{}", n, k)).collect();
+            added.sort();
+            added.dedup();
+            let mut want: Vec<String> = e.consts.iter().map(|c| format!("{}:const", c)).collect();
+            want.sort();
             if added != want || dict1.len() < dict0.len() {
                 return self.fail(obs, idx, format!("dictionary-after-block:{}", e.class), src, format!("entries added by the block: {:?}, expected only its constants {:?}", added, want));
             }
@@ -413,7 +499,13 @@ impl C11 {
 impl Monitor for C11 {
     fn run_case(&mut self, idx: u64, obs: &mut Obs) {
         match idx % 8 {
-            6 => self.sealing_case(idx, obs),
+            6 => {
+                if (idx / 8) % 2 == 0 {
+                    self.sealing_case(idx, obs)
+                } else {
+                    self.twin_stack_case(idx, obs)
+                }
+            }
             7 => self.compile_case(idx, obs),
             _ => self.pair_case(idx, obs),
         }
